@@ -23,7 +23,9 @@ from what the implementation showed (untrusted glue, not part of any theorem):
 * regular expressions: the match vector `F` of the line (a table from line text to the answer);
 * the emulator: its state is the last dump `E` (instruction pointer, register names and widths,
   memories and their blocks); `Step` asks for the values the implementation prompted for (`r|m <width>`)
-  and ends in the state of the next dump, or fails when no instruction is at the instruction pointer;
+  and ends in the state of the next dump, or fails when no instruction is at the instruction pointer; since the
+  repair of F45 `Step` can also fail AT an instruction (an access leaves the address space) after its prompts:
+  whether it did is replayed from the status of the call (`error`), the state after it from the next dump;
   `emulator.New` and `Regs.Store` yield the state of the next dump.  Memory cells are constants.
 
 What is compared (C): status, lines consumed, mode stack, kind, cursor, `Print` status and number of
@@ -165,7 +167,7 @@ def asks : List Nat → StepTree RSt → StepTree RSt
 
 def lookupKey {α} (l : List (Str × α)) (k : Str) : Option α := (l.find? fun p => p.1 == k).map (·.2)
 
-def replayEops (code : Listing.Code) (next : EObs) (prompts : List Nat) : EmuOps RSt where
+def replayEops (code : Listing.Code) (next : EObs) (prompts : List Nat) (failed : Bool := false) : EmuOps RSt where
   init _ _ := ⟨next⟩
   ip s := s.cur.ip
   step s :=
@@ -174,7 +176,7 @@ def replayEops (code : Listing.Code) (next : EObs) (prompts : List Nat) : EmuOps
     | some ip =>
       match (code.address ip).bind (·.address ip) with
       | none => .fail s
-      | some _ => asks prompts (.done ⟨next⟩)
+      | some _ => asks prompts (if failed then .fail ⟨next⟩ else .done ⟨next⟩)
   regWidth s k := lookupKey s.cur.regs k
   regStore _ _ _ := ⟨next⟩
   mem s k := (lookupKey s.cur.mems k).map fun bl => ⟨some bl, fun _ => some [0]⟩
@@ -303,7 +305,7 @@ def doStep (n : Nat) (a : Acc) (k : Nat) (st : StepTok) : Except String Acc := d
   let ui := refreshCode a.ui a.code
   let p : Params RSt := {
     cops := Listing.refOps
-    eops := replayEops a.code nextEmu st.prompts
+    eops := replayEops a.code nextEmu st.prompts (st.status == "error")
     rx := replayRx (topTexts ui) st.find }
   -- the oracle's view of the call
   let so : Spec.StepObs := {
@@ -323,7 +325,12 @@ def doStep (n : Nat) (a : Acc) (k : Nat) (st : StepTok) : Except String Acc := d
         let nm := (reprStr cmd.act).replace "Mltwist.UI.Act." ""
         [s!"{nm}-{st.status}"] ++
           (if st.prompts.length > 0 && st.consumed > st.prompts.length + 1 then ["value-retry"] else []) ++
-          (if nm == "dFind" && args.length == 2 then ["find-words2+"] else [])
+          (if nm == "dFind" && args.length == 2 then ["find-words2+"] else []) ++
+          -- F45: `Step` failed although an instruction is at the instruction pointer
+          (if nm == "eStep" && st.status == "error" &&
+              (match a.emu.ip with
+               | some ip => ((a.code.address ip).bind (·.address ip)).isSome
+               | none => false) then ["step-access-err"] else [])
       | .err => ["parse-err"]
       | .panic => ["parse-panic"]
     | _, _ => []
